@@ -210,7 +210,7 @@ class WebSocketFrame(object):
 
         if length == 126:
             length, = struct.unpack("!H", socket.recv(2))
-        if length == 127:
+        elif length == 127:
             length, = struct.unpack("!Q", socket.recv(8))
 
         self.payload_length = length
@@ -254,7 +254,7 @@ class WebSocketFrame(object):
         hdr = []
 
         if self.payload_length > 125:
-            if self.payload_length < 0XFFFF:
+            if self.payload_length <= 0XFFFF:
                 hdr.append(struct.pack("!H", self.payload_length))
             else:
                 hdr.append(struct.pack("!Q", self.payload_length))
